@@ -28,10 +28,32 @@ def load_variants():
                 v = dict(v)
                 v.setdefault('kind', 'fires')
                 out.append(v)
+    out.extend(seed_variants())
     ids = [v['id'] for v in out]
     dup = {i for i in ids if ids.count(i) > 1}
     if dup:
         raise SystemExit(f'duplicate variant ids {sorted(dup)}')
+    return out
+
+
+def seed_variants():
+    """the seeded defects kept under /verif/seeded (independent sub-agents): each valid seed must be reported by the check of
+    its own property (or, where recorded as such, by the neighbouring property that catches it)"""
+    import json
+    out = []
+    sd = os.path.join(os.path.dirname(HERE), 'seeded')
+    if not os.path.isdir(sd):
+        return out
+    for sid in sorted(os.listdir(sd)):
+        mp, pp = os.path.join(sd, sid, 'meta.json'), os.path.join(sd, sid, 'patch.diff')
+        if not (os.path.exists(mp) and os.path.exists(pp)):
+            continue
+        m = json.load(open(mp))
+        if not m.get('valid'):
+            continue
+        props = [m['property']] if m.get('own_property_now', m.get('detected_by_own_property')) else list(m.get('detected_by_now', m.get('detected_by', [])))[:1]
+        for p in props:
+            out.append(dict(id=f'seed-{sid}-{p}', prop=p, kind='fires', expect=p, patch=pp))
     return out
 
 
@@ -54,10 +76,17 @@ def run_variant(v):
     try:
         shutil.copytree(os.path.join(repo, 'scared'), os.path.join(tmp, 'scared'),
                         ignore=shutil.ignore_patterns('__pycache__'))
-        edits = v.get('edits') or [(v['file'], v['old'], v['new'])]
-        err = apply_edits(tmp, edits)
-        if err:
-            return (v['id'], 'SKIPPED', err)
+        if v.get('patch'):
+            import subprocess
+            r = subprocess.run(['git', 'apply', v['patch']], cwd=tmp, stdout=subprocess.PIPE, stderr=subprocess.STDOUT, text=True)
+            if r.returncode != 0:
+                return (v['id'], 'SKIPPED', 'seed patch no longer applies: ' + r.stdout.strip()[:120])
+            edits = []
+        else:
+            edits = v.get('edits') or [(v['file'], v['old'], v['new'])]
+            err = apply_edits(tmp, edits)
+            if err:
+                return (v['id'], 'SKIPPED', err)
         # the variant must still be valid Python
         import ast
         for rel, _, _ in edits:
